@@ -198,9 +198,29 @@ func checkC10(p *Prog, res *Result, tier string) {
 		}
 		return lin{}, false
 	}
+	// the encoder may also be written as a chain of appends: base ++ piece ++ piece ..; the pieces give the same table
+	appendForm := false
+	if !okTotal || func() bool {
+		for _, c := range callsIn(enc) {
+			if bi, ok := c.Common().Value.(*ssa.Builtin); ok && bi.Name() == "copy" {
+				return false
+			}
+		}
+		return true
+	}() {
+		if regs, tot, shared, ok := encoderAppendChain(p, enc, userKey); ok {
+			encRegions, total, okTotal, appendForm = regs, tot, true, true
+			construct := funcName(enc) + ": the encoded key is a fresh array"
+			if shared != nil {
+				res.bad("C10-R1", construct, p.pos(shared.Pos()), "the key is appended onto a package-level slice: when that slice has spare capacity the bytes are written into its shared array, so two requests that encode keys at the same time overwrite each other's key (reads and writes go to another key's records)")
+			} else {
+				res.ok("C10-R1", construct, p.pos(enc.Pos()), "append chain starting from a fresh (or nil) slice")
+			}
+		}
+	}
 	if !okTotal {
 		res.und("C10-R1", funcName(enc)+": buffer length", p.pos(enc.Pos()), "cannot evaluate the encoder's buffer length as a linear form")
-	} else {
+	} else if !appendForm {
 		for _, c := range callsIn(enc) {
 			cc := c.Common()
 			if bi, ok := cc.Value.(*ssa.Builtin); ok && bi.Name() == "copy" {
@@ -559,4 +579,111 @@ func constOf(p *Prog, pkgRel, name string) int64 {
 	}
 	v, _ := constant.Int64Val(c.Val())
 	return v
+}
+
+// encoderAppendChain reads the layout of an encoder written as return append(append(append(base, A...), b), C...):
+// the pieces in order, with cumulative offsets as linear forms in the key length. shared is the instruction that
+// loads a package-level slice used as the base of the chain (nil if the base is fresh).
+func encoderAppendChain(p *Prog, enc *ssa.Function, userKey *ssa.Parameter) (map[string]region, lin, ssa.Instruction, bool) {
+	var retv ssa.Value
+	for _, b := range enc.Blocks {
+		if ret, ok := b.Instrs[len(b.Instrs)-1].(*ssa.Return); ok && len(ret.Results) == 1 {
+			if retv != nil {
+				return nil, lin{}, nil, false
+			}
+			retv = ret.Results[0]
+		}
+	}
+	type piece struct {
+		name string
+		n    lin
+		pos  token.Pos
+	}
+	var pieces []piece
+	var shared ssa.Instruction
+	var walk func(v ssa.Value, d int) bool
+	walk = func(v ssa.Value, d int) bool {
+		v = resolve(v)
+		if d > 8 {
+			return false
+		}
+		switch x := v.(type) {
+		case *ssa.Const:
+			return x.Value == nil // nil slice
+		case *ssa.MakeSlice:
+			n, ok := constInt(x.Len)
+			return ok && n == 0
+		case *ssa.UnOp:
+			if g := globalLoad(x); g != nil {
+				n, ok := p.constLen(x, 0)
+				if !ok {
+					return false
+				}
+				shared = x
+				name := "magic"
+				if n == 1 {
+					name = "separator"
+				}
+				pieces = append(pieces, piece{name, lin{n, 0}, x.Pos()})
+				return true
+			}
+			return false
+		case *ssa.Call:
+			bi, ok := x.Common().Value.(*ssa.Builtin)
+			if !ok || bi.Name() != "append" || len(x.Common().Args) != 2 {
+				return false
+			}
+			if !walk(x.Common().Args[0], d+1) {
+				return false
+			}
+			tail := resolve(x.Common().Args[1])
+			if tail == ssa.Value(userKey) {
+				pieces = append(pieces, piece{"key", lin{0, 1}, x.Pos()})
+				return true
+			}
+			if sl, ok := tail.(*ssa.Slice); ok {
+				if al, ok := sl.X.(*ssa.Alloc); ok {
+					if at, ok := al.Type().Underlying().(*types.Pointer).Elem().Underlying().(*types.Array); ok && sl.Low == nil && sl.High == nil {
+						name := "magic"
+						if at.Len() == 1 {
+							name = "separator"
+						}
+						for _, c := range callsIn(enc) {
+							if isBigEndianCall(c, "PutUint64") {
+								if s2, ok := resolve(c.Common().Args[1]).(*ssa.Slice); ok && s2.X == ssa.Value(al) {
+									name = "revision"
+								}
+							}
+						}
+						pieces = append(pieces, piece{name, lin{at.Len(), 0}, x.Pos()})
+						return true
+					}
+				}
+			}
+			if n, ok := p.constLen(tail, 0); ok {
+				name := "magic"
+				if n == 1 {
+					name = "separator"
+				}
+				pieces = append(pieces, piece{name, lin{n, 0}, x.Pos()})
+				return true
+			}
+			return false
+		}
+		return false
+	}
+	if retv == nil || !walk(retv, 0) || len(pieces) == 0 {
+		return nil, lin{}, nil, false
+	}
+	regs := map[string]region{}
+	off := lin{0, 0}
+	for _, pc := range pieces {
+		hi := lin{off.a + pc.n.a, off.b + pc.n.b}
+		if _, dup := regs[pc.name]; dup {
+			return nil, lin{}, nil, false
+		}
+		regs[pc.name] = region{pc.name, off, hi, pc.pos, true}
+		off = hi
+	}
+	return regs, off, shared, true
 }
